@@ -424,6 +424,13 @@ pub fn step(s: &State, op: Op, cfg: &JudgeCfg) -> StepResult {
                 "unobservable",
                 format!("reading the arena through as_slice()/accessors panicked: {msg}"),
             ));
+            // the model-free invariants hold for *every* arena a history of valid calls leaves behind,
+            // also for one whose payloads cannot all be read any more
+            if let Ok(t) = ops::guarded(|| obs::observe_tolerant(&arena)) {
+                fails.extend(crate::judges::j01(&arena, &t));
+                fails.extend(crate::judges::j02(&t));
+                fails.extend(crate::judges::removed_links(&t));
+            }
             return StepResult {
                 outcome,
                 next: None,
@@ -587,7 +594,7 @@ pub fn step(s: &State, op: Op, cfg: &JudgeCfg) -> StepResult {
         let x = slot_of(*rid);
         if x < obs1.len() && obs1[x].removed {
             fails.push(mk(
-                C11 | C07 | C08 | opp,
+                C11 | C07 | C08 | C06 | opp,
                 "new-node-flag",
                 true,
                 &op,
@@ -912,9 +919,11 @@ pub fn step(s: &State, op: Op, cfg: &JudgeCfg) -> StepResult {
     }
 
     // ---- clone_from: overwriting an arena with another makes it equal to that other (C13), free
-    // list and all (C07, C08 depend on it) — between this state and its successor, both ways
-    if cfg.target & (C13 | C07 | C08) != 0 {
-        for (from, to, dir) in [(&s.arena, &arena, "successor.clone_from(&predecessor)"), (&arena, &s.arena, "predecessor.clone_from(&successor)")] {
+    // list and all (C07, C08 depend on it) — between this state and its successor, both ways.
+    // A result that differs is an arena a valid call produced: it is judged like any other below.
+    let mut clone_from_results: Vec<(bool, Arena<Payload>, &'static str)> = Vec::new();
+    if cfg.target & (C13 | C07 | C08 | C01 | C06 | C09 | C10 | C11 | C12) != 0 {
+        for (from_pred, from, to, dir) in [(true, &s.arena, &arena, "successor.clone_from(&predecessor)"), (false, &arena, &s.arena, "predecessor.clone_from(&successor)")] {
             let mut x = to.clone();
             let r = ops::guarded(|| x.clone_from(from));
             if r.is_err() || x != *from || obs::debug_hash(&x) != obs::debug_hash(from) {
@@ -927,7 +936,50 @@ pub fn step(s: &State, op: Op, cfg: &JudgeCfg) -> StepResult {
                     "clone_from-result-differs-from-source",
                     format!("{dir}: the overwritten arena is not equal to its source: {:?} vs {:?}", x, from),
                 ));
+                clone_from_results.push((from_pred, x, dir));
                 break;
+            }
+        }
+    }
+
+    // ---- a removal whose payload destructor panics (the call unwinds from the middle): every *other*
+    // node is left either as before the call, or as after it (for remove_subtree also: as after detach)
+    if cfg.target & C04 != 0 && succeeded {
+        if let Op::Remove(x) | Op::RemoveSubtree(x) = op {
+            let id = s.cur[x];
+            let mut tb = s.arena.clone();
+            payload::set_bomb(Some(m.payload[x]));
+            let r = ops::guarded(|| if matches!(op, Op::Remove(_)) { id.remove(&mut tb) } else { id.remove_subtree(&mut tb) });
+            payload::set_bomb(None);
+            if r.is_err() {
+                if let Ok(t) = ops::guarded(|| obs::observe_tolerant(&tb)) {
+                    let others = |a: &[SlotObs], b: &[SlotObs]| {
+                        a.len() == b.len() && a.iter().zip(b.iter()).enumerate().all(|(y, (p, q))| y == x || (p.removed == q.removed && p.links == q.links && p.payload == q.payload))
+                    };
+                    let mut accepted = others(&t, &s.obs) || others(&t, &obs1);
+                    if !accepted && matches!(op, Op::RemoveSubtree(_)) {
+                        let mut d = s.arena.clone();
+                        if ops::guarded(|| id.detach(&mut d)).is_ok() {
+                            if let Ok(od) = ops::guarded(|| obs::observe(&d)) {
+                                accepted = others(&t, &od);
+                            }
+                        }
+                    }
+                    if !accepted {
+                        fails.push(mk(
+                            C04,
+                            "unwound-removal",
+                            false,
+                            &op,
+                            class,
+                            "other-nodes-left-half-way",
+                            format!(
+                                "with a payload whose destructor panics the call unwinds and leaves the other nodes neither as before nor as after the call: {} (before: {}; after a normal call: {})",
+                                fmt_obs(&t), fmt_obs(&s.obs), fmt_obs(&obs1)
+                            ),
+                        ));
+                    }
+                }
             }
         }
     }
@@ -1013,6 +1065,7 @@ pub fn step(s: &State, op: Op, cfg: &JudgeCfg) -> StepResult {
     if fails.iter().any(|f| f.shaping) {
         fails.extend(crate::judges::j01(&arena, &obs1));
         fails.extend(crate::judges::j02(&obs1));
+        fails.extend(crate::judges::removed_links(&obs1));
     }
 
     let mut next = State {
@@ -1030,6 +1083,39 @@ pub fn step(s: &State, op: Op, cfg: &JudgeCfg) -> StepResult {
     // on a successor the model cannot follow too, against the model's expectation of that call
     if advanced && fails.iter().any(|f| f.shaping) {
         fails.extend(crate::judges::liveness_observers(&next, cfg.target));
+    }
+    // the arena a differing clone_from left behind is an arena produced by a valid call
+    for (from_pred, x, dir) in clone_from_results {
+        let mut t = if from_pred { s.clone() } else { next.clone() };
+        if let Ok(o) = ops::guarded(|| obs::observe_tolerant(&x)) {
+            t.arena = x;
+            t.obs = o;
+            let mut more = Vec::new();
+            more.extend(crate::judges::j01(&t.arena, &t.obs));
+            let cyc = crate::judges::j02(&t.obs);
+            let acyclic = cyc.is_empty();
+            more.extend(cyc);
+            more.extend(crate::judges::removed_links(&t.obs));
+            if acyclic && t.obs.len() == t.model.count() {
+                if cfg.target & C10 != 0 {
+                    more.extend(crate::free::c10_law(&t.arena, &t.obs));
+                }
+                if cfg.target & C11 != 0 {
+                    if let Ok(v) = ops::guarded(|| crate::judges::c11(&t)) {
+                        more.extend(v);
+                    }
+                }
+                if cfg.target & C06 != 0 {
+                    if let Ok(v) = ops::guarded(|| crate::judges::c06(&t)) {
+                        more.extend(v);
+                    }
+                }
+            }
+            for mut f in more {
+                f.detail = format!("after {dir}: {}", f.detail);
+                fails.push(f);
+            }
+        }
     }
     // configuration-independent: Debug renderings and outcome texts only, no derived hashes of library types
     let digest = obs::hash64(&(s.dbg, &op, outcome.digest_form(), next.dbg));
